@@ -50,6 +50,7 @@ Step(ev) ==
                                             drest |-> [i \in 1..(ev.kb - ret'[2]) |-> 90]] ELSE <<>>))
      [] ev.e = "MoveHead" -> MoveHead(ev.s) /\ JudgeEv(ev, [ret |-> ret'[2]])
      [] ev.e = "MoveTail" -> MoveTail(ev.k) /\ JudgeEv(ev, [ret |-> ret'[2], data |-> ret'[3]])
+     [] ev.e = "PutcFail" -> PutcFail /\ JudgeEv(ev, [threw |-> 1])
      [] ev.e = "Clean" -> Clean /\ JudgeEv(ev, <<>>)
      [] ev.e = "ClearPop" -> ClearPop /\ JudgeEv(ev, <<>>)
      \* queries: state unchanged, answer from the reference FIFO
